@@ -16,7 +16,7 @@ func init() {
 		ID:         "C24",
 		Level:      "other",
 		Technique:  "SSA width-provenance dataflow (ParseFloat width → float32 narrowing) + kind-context table conformance + resolver-propagation rule over options literals (static)",
-		Explain:    "Decides structural necessary conditions of the prototext round trip: (1) no float32 field value is produced by parsing the decimal at width 64 and narrowing (double rounding breaks bit-for-bit round trip of floats); (2) in every Kind-dependent branch of the text encoder/decoder the token accessors, Value accessors/constructors and bitSize constants agree with the Kind per the protobuf scalar table; (3) the codec uses one resolver throughout: the global registry only as the default of a nil Resolver option, and the wire decoding of Any.value for expansion forwards the codec's Resolver (else extensions known only to that resolver are dropped from an expanded Any); (4) a bracketed name written from message content (the type URL of an expanded Any) is first validated by running the text reader on it, so the writer never emits a name outside the reader's grammar; bracketed names from descriptors need no guard.",
+		Explain:    "Decides structural necessary conditions of the prototext round trip: (1) no float32 field value is produced by parsing the decimal at width 64 and narrowing (double rounding breaks bit-for-bit round trip of floats); (2) in every Kind-dependent branch of the text encoder/decoder the token accessors, Value accessors/constructors and bitSize constants agree with the Kind per the protobuf scalar table; (3) the codec uses one resolver throughout: the global registry only as the default of a nil Resolver option, and the wire decoding of Any.value for expansion forwards the codec's Resolver (else extensions known only to that resolver are dropped from an expanded Any); (4) a bracketed name written from message content (the type URL of an expanded Any) is first validated by running the text reader on it, so the writer never emits a name outside the reader's grammar; bracketed names from descriptors need no guard. (5) field names are written only from TextName(), the inverse of the reader's ByTextName lookup and of the bracketed extension form.",
 		NotCovered: "the round trip on concrete values, extensions/groups/Any expansion, and whitespace/indent options; only the listed structural clauses are decided.",
 		Quick:      all("./encoding/prototext"),
 		Thorough:   all("./..."),
@@ -25,6 +25,7 @@ func init() {
 			c.ruleKindContext("R-KIND-CONTEXT", []string{"encoding/prototext", "internal/encoding/text"}, 20)
 			c.ruleResolverProp("R-RESOLVER-PROP", []string{"encoding/prototext"}, 3)
 			c.ruleNameGrammar("R-NAME-GRAMMAR", 1)
+			c.ruleNameAccessorPair("R-NAME-ACCESSOR-PAIR", "encoding/prototext", "encoding/prototext.encoder.marshalMessage", 1)
 		},
 	})
 	register(&Property{
